@@ -1,6 +1,7 @@
 package main
 
 import (
+	"go/constant"
 	"go/token"
 	"go/types"
 
@@ -318,6 +319,67 @@ func c50(c *Ctx) {
 		q2 := pathQuery{Fn: doneCl, AtEntry: true, Barrier: func(in ssa.Instruction) bool { return in == ssa.Instruction(fin) }, Target: isReturn}
 		c.MustPass("done-always-reports-finish", q2, fin)
 		c.Expect(sameValue(fin.Common().Args[0], started.Common().Args[0]) || sameCaptured(fin.Common().Args[0], started.Common().Args[0], doneStore), fin, doneCl, "same-locality", "CallFinished is reported for a different locality than CallStarted")
+		// server loads carried by the finished call: dereferenced only when a non-nil ORCA report is present; the early
+		// return is taken only without one; each fixed utilisation is recorded exactly under its own switch; named metrics
+		// are walked completely
+		sl := callsIn(doneCl, Callee(cimpl, "loadReporter.CallServerLoad"))
+		if c.Expect(len(sl) >= 5, fin, doneCl, "server-load-sites", "fewer server-load recording sites than on the reviewed tree") {
+			load := func(v ssa.Value) bool {
+				e, ok := v.(*ssa.Extract)
+				if !ok || e.Index != 0 {
+					return false
+				}
+				ta, ok := e.Tuple.(*ssa.TypeAssert)
+				return ok && FieldLoad(c.field("balancer", "DoneInfo", "ServerLoad"))(ta.X)
+			}
+			okLoad := func(v ssa.Value) bool {
+				e, ok := v.(*ssa.Extract)
+				if !ok || e.Index != 1 {
+					return false
+				}
+				ta, ok := e.Tuple.(*ssa.TypeAssert)
+				return ok && FieldLoad(c.field("balancer", "DoneInfo", "ServerLoad"))(ta.X)
+			}
+			for _, ci := range sl {
+				c.MustFact(ci, "server-load-only-from-a-report", NotNil(load))
+				c.MustFact(ci, "server-load-only-from-an-ORCA-report", Truth(okLoad, true))
+				c.Expect(sameValue(ci.Common().Args[0], fin.Common().Args[0]) || ci.Common().Args[0] == fin.Common().Args[0] || sameCaptured(ci.Common().Args[0], started.Common().Args[0], doneStore), ci, doneCl, "server-load-for-the-call's-locality", "a server load is recorded for a locality other than the call's")
+			}
+			for _, r := range returnsOf(doneCl) {
+				if r.Block() == doneCl.Recover {
+					continue
+				}
+				reachedByLoad := false
+				for _, ci := range sl {
+					if reachableBlocks(ci.Block())[r.Block()] {
+						reachedByLoad = true
+					}
+				}
+				if !reachedByLoad {
+					c.EnteredOnlyWhen(r.Block(), "loads-skipped-only-without-a-report", IsNil(load), Truth(okLoad, false))
+				}
+			}
+			m := func(n string) FM { return Truth(FieldLoad(c.field("internal/xds/bootstrap", "LoadReportingMetrics", n)), true) }
+			_ = m
+			for _, ci := range sl {
+				name := constOf(ci.Common().Args[1])
+				if name == nil || name.Value == nil {
+					continue
+				}
+				switch constant.StringVal(name.Value) {
+				case "cpu_utilization":
+					c.MustFact(ci, "cpu-only-when-enabled", Truth(func(v ssa.Value) bool { u, ok := v.(*ssa.UnOp); return ok && fieldNameOfLoad(u) == "CPUUtilization" }, true))
+					c.ArgIs(ci, 2, "cpu-value", func(v ssa.Value) bool { u, ok := v.(*ssa.UnOp); return ok && fieldNameOfLoad(u) == "CpuUtilization" })
+				case "mem_utilization":
+					c.MustFact(ci, "mem-only-when-enabled", Truth(func(v ssa.Value) bool { u, ok := v.(*ssa.UnOp); return ok && fieldNameOfLoad(u) == "MemUtilization" }, true))
+					c.ArgIs(ci, 2, "mem-value", func(v ssa.Value) bool { u, ok := v.(*ssa.UnOp); return ok && fieldNameOfLoad(u) == "MemUtilization" })
+				case "application_utilization":
+					c.MustFact(ci, "app-only-when-enabled", Truth(func(v ssa.Value) bool { u, ok := v.(*ssa.UnOp); return ok && fieldNameOfLoad(u) == "ApplicationUtilization" }, true))
+					c.ArgIs(ci, 2, "app-value", func(v ssa.Value) bool { u, ok := v.(*ssa.UnOp); return ok && fieldNameOfLoad(u) == "ApplicationUtilization" })
+				}
+			}
+			c.NoEarlyExit(doneCl, AnyV, "named-metrics-walked-completely")
+		}
 		// with a load store present a started call is always reported: CallStarted may be skipped after a
 		// successful child pick only where the store is absent
 		pk := one(c, "child Pick", callsIn(f, Callee("balancer", "Picker.Pick")))
@@ -427,4 +489,13 @@ func sameCaptured(a, b ssa.Value, st *ssa.Store) bool {
 		}
 	}
 	return false
+}
+
+// fieldNameOfLoad: the name of the struct field that u loads (u = *(&x.f)), or "".
+func fieldNameOfLoad(u *ssa.UnOp) string {
+	fa, ok := u.X.(*ssa.FieldAddr)
+	if !ok {
+		return ""
+	}
+	return fieldOfAddr(fa).Name()
 }
